@@ -206,6 +206,14 @@ class HSFZConnection:
 
         return await self._read_queue.get()
 
+    def _requeue(self, packets: list[Any]) -> None:
+        # Skipped packets go back in front of everything which arrived in the
+        # meantime; otherwise the order seen by later consumers depends on timing.
+        while not self._read_queue.empty():
+            packets.append(self._read_queue.get_nowait())
+        for item in packets:
+            self._read_queue.put_nowait(item)
+
     async def read_diag_request(self) -> bytes:
         unexpected_packets = []
         while True:
@@ -224,8 +232,7 @@ class HSFZConnection:
                 continue
 
             # We do not want to consume packets that we were not expecting; add them to queue again
-            for item in unexpected_packets:
-                await self._read_queue.put(item)
+            self._requeue(unexpected_packets)
 
             return data
 
@@ -253,8 +260,7 @@ class HSFZConnection:
                 continue
 
             # We do not want to consume packets that we were not expecting; add them to queue again
-            for item in unexpected_packets:
-                await self._read_queue.put(item)
+            self._requeue(unexpected_packets)
 
             return
 
